@@ -89,6 +89,11 @@ func safePatchList(r *fw.Rand, doc map[string]interface{}, maxLen int) []interfa
 		a, e1 := oracle.ApplyPatchesModel(doc, pl.Patches, oracle.Quirks{})
 		b, e2 := oracle.ApplyPatchesModel(doc, pl.Patches, oracle.Quirks{AliasCopy: true, MoveCopySet: true, NullTest: true})
 		if e1 == nil && e2 == nil && oracle.DocEqual(a, b) {
+			if r.Chance(1, 3) {
+				// characters that Go's encoding/json escapes (6 bytes each) but the canonical form keeps raw
+				return append(pl.Patches, gen.PAddServices(map[string]interface{}{"id": "amp-svc", "type": "LinkedDomains",
+					"serviceEndpoint": "https://example.com/q?a=1&b=<2>&c=" + strings.Repeat("&", r.Intn(6))}))
+			}
 			return pl.Patches
 		}
 	}
@@ -131,6 +136,23 @@ func (lc *lifecycleChecker) step(req []byte, typ string, facts oracle.OpFacts, w
 		w["got_type"], w["got_suffix"], w["want_suffix"] = op.Type, op.UniqueSuffix, wantSuffix
 		c.Failf("built-request-misparsed", w, "%s request parsed with type %s suffix %s", typ, op.Type, op.UniqueSuffix)
 		return false
+	}
+	// a parser whose delta and operation size limits equal this request's sizes exactly accepts it too (limits count the
+	// bytes of the canonical delta / of the request as sent, whatever characters they contain)
+	if g, gerr := oracle.ParseJSON(req); gerr == nil {
+		if gm, ok := g.(map[string]interface{}); ok {
+			tight := lc.st.P
+			tight.MaxOperationSize = uint(len(req))
+			if dl, ok := gm["delta"]; ok {
+				tight.MaxDeltaSize = uint(len(oracle.MustJCS(dl)))
+			}
+			c.Count("tight-limit-parses", 1)
+			if _, terr := sut.SharedStack(tight).Parser.Parse(lc.ns, req); terr != nil {
+				w["err"], w["MaxDeltaSize"], w["MaxOperationSize"] = terr.Error(), tight.MaxDeltaSize, tight.MaxOperationSize
+				c.Failf("built-request-refused-at-exact-size-limits:"+typ, w, "%s request from %s is refused by a parser whose size limits equal its canonical delta size (%d) and request size (%d): %v", typ, source, tight.MaxDeltaSize, tight.MaxOperationSize, terr)
+				return false
+			}
+		}
 	}
 	// the request must reveal the commitment currently installed on its chain, and its delta hash must use the
 	// algorithm the caller asked for (decoded with the harness codec)
@@ -305,6 +327,22 @@ func c08Builders(c *fw.Case) {
 		sfx = op.UniqueSuffix
 	}
 	opts := ""
+	// optional anchoring window around the time the lifecycle checker anchors the next operation at: none, both bounds,
+	// from only (expiry defaults to from + the protocol's delta), until only
+	window := func() (int64, int64) {
+		switch r.Intn(6) {
+		case 0:
+			opts += "w"
+			return int64(lc.time) - 5, int64(lc.time) + 500
+		case 1:
+			opts += "f"
+			return int64(lc.time) - 5, 0
+		case 2:
+			opts += "u"
+			return 0, int64(lc.time) + 500
+		}
+		return 0, 0
+	}
 	doUpdates := func() bool {
 		for i, n := 0, r.Intn(3); i < n; i++ {
 			next, _ := newLibKey(r, kt)
@@ -312,10 +350,7 @@ func c08Builders(c *fw.Case) {
 			lp, _ := sut.ToPatches(pl.Patches)
 			ui := &client.UpdateRequestInfo{DidSuffix: sfx, Patches: lp, UpdateCommitment: commit(next), UpdateKey: upd.jwk, MultihashCode: code,
 				Signer: signerFor(upd.k, kid(r)), RevealValue: reveal(upd)}
-			if r.Chance(1, 3) {
-				ui.AnchorFrom, ui.AnchorUntil = int64(lc.time)-5, int64(lc.time)+500
-				opts += "w"
-			}
+			ui.AnchorFrom, ui.AnchorUntil = window()
 			req, err := client.NewUpdateRequest(ui)
 			c.Count("builder-requests", 1)
 			if err != nil {
@@ -354,6 +389,7 @@ func c08Builders(c *fw.Case) {
 		ri.AnchorOrigin = "https://recovered.example"
 		rf.AnchorOrigin = ri.AnchorOrigin
 	}
+	ri.AnchorFrom, ri.AnchorUntil = window()
 	req, err = client.NewRecoverRequest(ri)
 	c.Count("builder-requests", 1)
 	if err != nil {
@@ -369,7 +405,9 @@ func c08Builders(c *fw.Case) {
 		return
 	}
 	// --- deactivate
-	req, err = client.NewDeactivateRequest(&client.DeactivateRequestInfo{DidSuffix: sfx, RecoveryKey: rec.jwk, Signer: signerFor(rec.k, kid(r)), RevealValue: reveal(rec)})
+	di := &client.DeactivateRequestInfo{DidSuffix: sfx, RecoveryKey: rec.jwk, Signer: signerFor(rec.k, kid(r)), RevealValue: reveal(rec)}
+	di.AnchorFrom, di.AnchorUntil = window()
+	req, err = client.NewDeactivateRequest(di)
 	c.Count("builder-requests", 1)
 	if err != nil {
 		c.Failf("builder-error:deactivate", map[string]interface{}{"err": err.Error()}, "NewDeactivateRequest refused valid input: %v", err)
